@@ -37,6 +37,18 @@ FUNCS = ["logger.Logger._log/_should_log/with_log_info/from_log_info", "state.Ex
 NO_RETRY = StepConfig(retry_strategy=lambda e, n: RetryDecision.no_retry())
 
 
+LEVELS = ["debug", "info", "warning", "error", "exception"]
+
+
+SITE_LEVEL = {"L0": "error", "in-S1": "info", "L1": "warning", "C0": "exception", "in-C1": "debug", "Ca": "error", "in-C2": "warning", "Cb": "info",
+              "L2": "exception", "L3": "debug", "in-S3": "error", "L4": "info", "in-F": "warning", "in-S0": "exception"}
+
+
+def emit(lg, site):
+    """each log site uses a fixed level; the sites that get replayed cover all five levels, so every level's path through the context logger is exercised"""
+    getattr(lg, SITE_LEVEL.get(site, LEVELS[sum(ord(ch) for ch in site) % 5]))(site)
+
+
 class Cap:
     """capturing LoggerInterface"""
 
@@ -64,7 +76,7 @@ def make_handler(cap, executed, use_callback, s1_fails, s3_retry=False):
 
         def log(lg, site):
             executed.append(site)
-            lg.info(site)
+            emit(lg, site)
 
         def stepfn(site, fail=False, fail_first=False):
             def fn(sc):
@@ -226,7 +238,7 @@ def replay_logging_outstanding_first(ci: int, cc: int, paged: bool, empty_first:
 
         def log(lg, site):
             state["cur"][1].append(site)
-            lg.info(site)
+            emit(lg, site)
 
         log(ctx.logger, "L0")
         cb = ctx.create_callback(name="W")
@@ -280,7 +292,7 @@ def block_handler(kind, cap, executed, first):
 
         def log(lg, site):
             executed.append(site)
-            lg.info(site)
+            emit(lg, site)
 
         def st(site):
             def fn(sc):
